@@ -9,7 +9,8 @@ Record fdiff := mkFD {
   fd_id : N;
   fd_relevant : bool;        (* tx.ContractRelevant(id) *)
   fd_created : bool;
-  fd_cur : N;                (* fce.FileContract.RevisionNumber: the element before the update *)
+  fd_cur : N;                (* fce.FileContract.RevisionNumber: the element before the update (a
+                                created element: after the revisions folded into it) *)
   fd_rev : option N;         (* diff.Revision.RevisionNumber *)
   fd_resolved : bool;
   fd_valid : bool;
@@ -35,18 +36,27 @@ Definition add_succ2 ch id := mkCh (cConf1 ch) (cRev1 ch) (cSucc1 ch) (cFail1 ch
 Definition add_ren2 ch id := mkCh (cConf1 ch) (cRev1 ch) (cSucc1 ch) (cFail1 ch) (cConf2 ch) (cRev2 ch) (cSucc2 ch) (cRen2 ch ++ [id]) (cFail2 ch).
 Definition add_fail2 ch id := mkCh (cConf1 ch) (cRev1 ch) (cSucc1 ch) (cFail1 ch) (cConf2 ch) (cRev2 ch) (cSucc2 ch) (cRen2 ch) (cFail2 ch ++ [id]).
 
-(* the switch over a v1 diff: created, revised, resolved valid, resolved missed; None = error.
-   On revert the element itself (the PREVIOUS revision) is recorded as the revised contract. *)
+(* the resolution part of a v1 diff: a storage proof, or a missed resolution that pays the host
+   in full, is successful *)
+Definition build1_res (ch : changes) (d : fdiff) : changes :=
+  if fd_resolved d then
+    (if fd_valid d || fd_missed_ge d then add_succ1 ch (fd_id d) else add_fail1 ch (fd_id d))
+  else ch.
+
+(* the switch over a v1 diff; None = error.
+   [case created] (fixes/C01-formation-carries-revision.patch): the created element is confirmed
+   and, because core folds the revisions confirmed in the same block into it, also recorded as
+   the confirmed revision (on revert: revision 0, the value insertContract wrote).
+   [case rev != nil]: on revert the element itself (the PREVIOUS revision) is recorded as the
+   revised contract; (fixes/C01-v1-revised-and-proven-same-block.patch) a diff that is revised
+   and resolved falls through into [case resolved]. *)
 Definition build1 (revert : bool) (ch : changes) (d : fdiff) : option changes :=
   if negb (fd_relevant d) then Some ch
-  else if fd_created d then Some (add_conf1 ch (fd_id d))
+  else if fd_created d then
+    Some (add_rev1 (add_conf1 ch (fd_id d)) (fd_id d, if revert then 0 else fd_cur d))
   else match fd_rev d with
-       | Some r => Some (add_rev1 ch (fd_id d, if revert then fd_cur d else r))
-       | None =>
-           if fd_resolved d && fd_valid d then Some (add_succ1 ch (fd_id d))
-           else if fd_resolved d && negb (fd_valid d) then
-             (if fd_missed_ge d then Some (add_succ1 ch (fd_id d)) else Some (add_fail1 ch (fd_id d)))
-           else None
+       | Some r => Some (build1_res (add_rev1 ch (fd_id d, if revert then fd_cur d else r)) d)
+       | None => if fd_resolved d then Some (build1_res ch d) else None
        end.
 
 (* the resolution part of a v2 diff (the inner type switch; [None] = not resolved) *)
